@@ -1,0 +1,413 @@
+//! Verification hooks. Compiled only with `--cfg mini_moka_verif`; never part of a
+//! normal build. Everything here is additive: with the guard off the crate is the
+//! original code.
+//!
+//! - scheduler seam (`sp`, `block_until`, `yield_spin`): lets an external harness
+//!   serialize threads and decide who runs next at instrumented points.
+//! - mock clock handle (`MockClock`).
+//! - plain-data snapshot types describing the internal state of both caches.
+//! - facades over the intrusive `Deque` and the `FrequencySketch`.
+
+use std::{
+    cell::RefCell,
+    sync::{
+        atomic::{AtomicUsize, Ordering},
+        Arc,
+    },
+    time::{Duration, Instant as StdInstant},
+};
+
+use crate::common::{
+    deque::{DeqNode, Deque},
+    frequency_sketch::FrequencySketch,
+    time::clock::Mock,
+    CacheRegion,
+};
+
+// ---------------------------------------------------------------------------
+// Scheduler seam
+// ---------------------------------------------------------------------------
+
+/// What an instrumented point reports to the harness.
+pub enum Event<'a> {
+    /// A point between two atomic steps; the thread stays runnable.
+    Switch(&'static str),
+    /// The thread is about to take a lock; it is runnable only while `probe()`
+    /// returns true. The harness must let the thread continue only after a probe
+    /// that returned true, with no other thread running in between.
+    Block(&'static str, &'a dyn Fn() -> bool),
+    /// The thread is in a retry loop and made no progress; it should not be
+    /// rescheduled before some other thread has run.
+    Yield(&'static str),
+}
+
+pub trait Sched: Send + Sync {
+    fn event(&self, ev: Event<'_>);
+}
+
+thread_local! {
+    static SCHED: RefCell<Option<Arc<dyn Sched>>> = const { RefCell::new(None) };
+}
+
+/// Installs (or removes) the scheduler for the calling thread.
+pub fn install_sched(s: Option<Arc<dyn Sched>>) {
+    let _ = SCHED.try_with(|c| *c.borrow_mut() = s);
+}
+
+#[inline]
+fn current() -> Option<Arc<dyn Sched>> {
+    SCHED
+        .try_with(|c| c.try_borrow().ok().and_then(|b| b.as_ref().cloned()))
+        .ok()
+        .flatten()
+}
+
+#[inline]
+pub(crate) fn sp(label: &'static str) {
+    if let Some(s) = current() {
+        s.event(Event::Switch(label));
+    }
+}
+
+#[inline]
+pub(crate) fn block_until(label: &'static str, probe: &dyn Fn() -> bool) {
+    if let Some(s) = current() {
+        s.event(Event::Block(label, probe));
+    }
+}
+
+#[inline]
+pub(crate) fn yield_spin(label: &'static str) {
+    if let Some(s) = current() {
+        s.event(Event::Yield(label));
+    }
+}
+
+// ---------------------------------------------------------------------------
+// DashMap shard amount (0 = library default, which depends on the CPU count)
+// ---------------------------------------------------------------------------
+
+static SHARD_AMOUNT: AtomicUsize = AtomicUsize::new(0);
+
+/// Sets the number of DashMap shards used by caches created afterwards.
+/// Must be a power of two greater than one, or 0 for the library default.
+pub fn set_shard_amount(n: usize) {
+    SHARD_AMOUNT.store(n, Ordering::SeqCst);
+}
+
+pub(crate) fn shard_amount() -> usize {
+    SHARD_AMOUNT.load(Ordering::SeqCst)
+}
+
+// ---------------------------------------------------------------------------
+// Mock clock
+// ---------------------------------------------------------------------------
+
+/// Handle to a mock expiration clock installed into a cache.
+#[derive(Clone)]
+pub struct MockClock {
+    pub(crate) mock: Arc<Mock>,
+    origin: StdInstant,
+}
+
+impl MockClock {
+    pub(crate) fn new(mock: Arc<Mock>) -> Self {
+        let origin = mock.verif_now();
+        Self { mock, origin }
+    }
+
+    pub fn advance(&self, d: Duration) {
+        self.mock.verif_increment(d);
+    }
+
+    pub fn now(&self) -> StdInstant {
+        self.mock.verif_now()
+    }
+
+    /// The reading the clock had when it was created.
+    pub fn origin(&self) -> StdInstant {
+        self.origin
+    }
+
+    /// Current reading as an offset from the origin.
+    pub fn elapsed(&self) -> Duration {
+        self.now().duration_since(self.origin)
+    }
+}
+
+// ---------------------------------------------------------------------------
+// Snapshot types (plain data; addresses are reported, never dereferenced by
+// the consumer)
+// ---------------------------------------------------------------------------
+
+#[derive(Clone, Debug, Default)]
+pub struct EntrySnap {
+    /// Key as mapped by the caller supplied `key_id` function.
+    pub key: u64,
+    /// Value as mapped by the caller supplied `value_id` function.
+    pub value: u64,
+    /// Address of the value entry (sync: the `TrioArc<ValueEntry>` target).
+    pub entry_addr: usize,
+    /// Address of the shared entry info (sync only; 0 on unsync).
+    pub info_addr: usize,
+    pub weight: u32,
+    /// sync only (unsync keeps timestamps in the deque nodes).
+    pub last_accessed: Option<StdInstant>,
+    /// sync only.
+    pub last_modified: Option<StdInstant>,
+    pub dirty: bool,
+    pub admitted: bool,
+    /// (node address, region tag)
+    pub ao_node: Option<(usize, usize)>,
+    pub wo_node: Option<usize>,
+}
+
+#[derive(Clone, Debug, Default)]
+pub struct NodeSnap {
+    pub addr: usize,
+    pub key: u64,
+    /// access-order nodes only
+    pub hash: Option<u64>,
+    /// sync only (0 on unsync)
+    pub info_addr: usize,
+    /// unsync only
+    pub timestamp: Option<StdInstant>,
+}
+
+#[derive(Clone, Debug, Default)]
+pub struct DequeSnap {
+    pub region: usize,
+    pub len: usize,
+    pub nodes: Vec<NodeSnap>,
+    /// None: no cursor; Some(None): cursor is Done; Some(Some(addr)): at node.
+    pub cursor: Option<Option<usize>>,
+    /// Set when the list is not well formed (prev/next/head/tail/len disagree).
+    pub malformed: Option<String>,
+}
+
+#[derive(Clone, Debug, Default)]
+pub struct SketchSnap {
+    pub enabled: bool,
+    pub size: u32,
+    pub sample_size: u32,
+    pub table_len: usize,
+    /// (index, word) for the non-zero words
+    pub table: Vec<(u32, u64)>,
+    pub resets: u32,
+}
+
+#[derive(Clone, Debug)]
+pub enum OpSnap {
+    Hit {
+        hash: u64,
+        entry: EntrySnap,
+        timestamp: StdInstant,
+    },
+    Miss {
+        hash: u64,
+    },
+    Upsert {
+        hash: u64,
+        entry: EntrySnap,
+        old_weight: u32,
+        new_weight: u32,
+    },
+    Remove {
+        entry: EntrySnap,
+    },
+}
+
+#[derive(Clone, Debug, Default)]
+pub struct Snapshot {
+    pub entries: Vec<EntrySnap>,
+    pub window: DequeSnap,
+    pub probation: DequeSnap,
+    pub protected: DequeSnap,
+    pub write_order: DequeSnap,
+    pub entry_count: u64,
+    pub weighted_size: u64,
+    pub sketch: SketchSnap,
+    /// sync only
+    pub valid_after: Option<StdInstant>,
+    /// sync only
+    pub sync_after: Option<StdInstant>,
+    /// sync only
+    pub sync_running: bool,
+    /// sync only: pending read ops, oldest first
+    pub read_ops: Vec<OpSnap>,
+    /// sync only: pending write ops, oldest first
+    pub write_ops: Vec<OpSnap>,
+}
+
+// ---------------------------------------------------------------------------
+// Deque walking (shared by the cache snapshots and the facade)
+// ---------------------------------------------------------------------------
+
+pub(crate) fn snap_deque<T>(
+    deq: &Deque<T>,
+    mut describe: impl FnMut(&T, usize) -> NodeSnap,
+) -> DequeSnap {
+    let (region, len, addrs, cursor, malformed) = deq.verif_walk();
+    let nodes = addrs
+        .into_iter()
+        .map(|a| {
+            // Safety: `verif_walk` only returns nodes reached from `head` through
+            // `next` links, which the list owns.
+            let node = unsafe { &*(a as *const DeqNode<T>) };
+            describe(&node.element, a)
+        })
+        .collect();
+    DequeSnap {
+        region,
+        len,
+        nodes,
+        cursor,
+        malformed,
+    }
+}
+
+pub(crate) fn snap_sketch(s: &FrequencySketch, enabled: bool) -> SketchSnap {
+    let (size, sample_size, table, resets) = s.verif_parts();
+    SketchSnap {
+        enabled,
+        size,
+        sample_size,
+        table_len: table.len(),
+        table: table
+            .iter()
+            .enumerate()
+            .filter(|(_, w)| **w != 0)
+            .map(|(i, w)| (i as u32, *w))
+            .collect(),
+        resets,
+    }
+}
+
+// ---------------------------------------------------------------------------
+// Facade over the intrusive list
+// ---------------------------------------------------------------------------
+
+/// Exposes `common::deque::Deque` to an external harness. Node handles are the
+/// node addresses; the unsafe operations have the same preconditions as in the
+/// crate (the node must currently be linked in this deque).
+pub struct DequeFacade<T> {
+    deq: Deque<T>,
+}
+
+impl<T> Default for DequeFacade<T> {
+    fn default() -> Self {
+        Self::new()
+    }
+}
+
+impl<T> DequeFacade<T> {
+    pub fn new() -> Self {
+        Self {
+            deq: Deque::new(CacheRegion::MainProbation),
+        }
+    }
+
+    pub fn push_back(&mut self, elem: T) -> usize {
+        self.deq.push_back(Box::new(DeqNode::new(elem))).as_ptr() as usize
+    }
+
+    pub fn pop_front(&mut self) -> Option<T> {
+        self.deq.pop_front().map(|b| b.element)
+    }
+
+    pub fn peek_front(&self) -> Option<(usize, &T)> {
+        self.deq
+            .peek_front()
+            .map(|n| (n as *const DeqNode<T> as usize, &n.element))
+    }
+
+    pub fn peek_front_ptr(&self) -> Option<usize> {
+        self.deq.peek_front_ptr().map(|p| p.as_ptr() as usize)
+    }
+
+    /// # Safety
+    /// `node` must be a live node created by this facade (linked or not).
+    pub unsafe fn contains(&self, node: usize) -> bool {
+        self.deq.contains(&*(node as *const DeqNode<T>))
+    }
+
+    /// # Safety
+    /// `node` must be linked in this deque.
+    pub unsafe fn next_of(&self, node: usize) -> Option<usize> {
+        DeqNode::next_node_ptr(std::ptr::NonNull::new_unchecked(node as *mut DeqNode<T>))
+            .map(|p| p.as_ptr() as usize)
+    }
+
+    /// # Safety
+    /// `node` must be linked in this deque.
+    pub unsafe fn move_to_back(&mut self, node: usize) {
+        self.deq
+            .move_to_back(std::ptr::NonNull::new_unchecked(node as *mut DeqNode<T>))
+    }
+
+    pub fn move_front_to_back(&mut self) {
+        self.deq.move_front_to_back()
+    }
+
+    /// # Safety
+    /// `node` must be linked in this deque.
+    pub unsafe fn unlink_and_drop(&mut self, node: usize) {
+        self.deq
+            .unlink_and_drop(std::ptr::NonNull::new_unchecked(node as *mut DeqNode<T>))
+    }
+
+    /// One step of the cursor iterator (`impl Iterator for &mut Deque`).
+    pub fn cursor_next(&mut self) -> Option<&T> {
+        let mut d = &mut self.deq;
+        Iterator::next(&mut d)
+    }
+
+    pub fn snapshot(&self, mut id: impl FnMut(&T) -> u64) -> DequeSnap {
+        snap_deque(&self.deq, |e, addr| NodeSnap {
+            addr,
+            key: id(e),
+            ..Default::default()
+        })
+    }
+}
+
+// ---------------------------------------------------------------------------
+// Facade over the popularity estimator
+// ---------------------------------------------------------------------------
+
+#[derive(Default)]
+pub struct SketchFacade {
+    s: FrequencySketch,
+}
+
+impl SketchFacade {
+    pub fn new() -> Self {
+        Self::default()
+    }
+
+    pub fn ensure_capacity(&mut self, cap: u32) {
+        self.s.ensure_capacity(cap)
+    }
+
+    pub fn increment(&mut self, hash: u64) {
+        self.s.increment(hash)
+    }
+
+    pub fn frequency(&self, hash: u64) -> u8 {
+        self.s.frequency(hash)
+    }
+
+    /// Table index used for `hash` at `depth` (0..4) and the nibble position.
+    pub fn counter_of(&self, hash: u64, depth: u8) -> (usize, u8) {
+        self.s.verif_counter_of(hash, depth)
+    }
+
+    pub fn snapshot(&self) -> SketchSnap {
+        snap_sketch(&self.s, true)
+    }
+}
+
+/// The sketch capacity a cache derives from its max capacity.
+pub fn sketch_capacity(max_capacity: u64) -> u32 {
+    crate::common::sketch_capacity(max_capacity)
+}
